@@ -44,7 +44,7 @@ class C20(Prop):
             "layouts (adjacent, gapped, overlapping, nested, zero-length); for each file EVERY request shape [s, e) with "
             "s ∈ −4..len, e ∈ s+1..len+4 and every bin count 1..(e−s) in exact mode for the three statistics, plus per-base "
             "requests and zoom-backed (exact=False) requests, with missing ∈ {0, −1, 7, NaN} and oob ∈ {NaN, −5}, all through "
-            "the real Python API (pybigtools.values from the cdylib built from /repo), a share of them into a caller-supplied "
+            "the real Python API (pybigtools.values from the cdylib built from /repo), a share of them with the file opened from file-like objects (BytesIO; raw streams delivering 7 or 1000 bytes per read) and a share into a caller-supplied "
             "`arr=` buffer that already holds other numbers. Exact equality with the model and the "
             "oracle where the bin width is integral; NaN-freedom and range for every width. Non-trivial = a request with bins "
             "whose range is cut by data, or reaching outside the chromosome")
@@ -108,6 +108,12 @@ class C20(Prop):
                         reqs.append(dict(chrom=CHROM, start=s, end=e, bins=None, missing=m, oob=o, arr=99))
             jobs.append({"file": outp, "requests": reqs})
             meta.append((k, bed, length, items))
+            # the same file opened from file-like objects: an in-memory buffer, and raw streams whose read(n) delivers fewer
+            # bytes than asked (7 / 1000 per call) — a share of the requests each
+            for oi, how in enumerate(("short7", "bytesio", "short1000")):
+                sub = reqs[oi::(40 if how == "short7" else 9) if tier != "thorough" else 6]
+                jobs.append({"file": outp, "open": how, "requests": sub})
+                meta.append((f"{k}{how}", bed, length, items))
         jf, rf = os.path.join(d, "jobs.json"), os.path.join(d, "results.json")
         json.dump(jobs, open(jf, "w"))
         p = subprocess.run(["python3-vt", os.path.join(os.path.dirname(os.path.abspath(__file__)), "..", "py_values_driver.py"), PYMOD, jf, rf],
